@@ -1,6 +1,7 @@
 package main
 
 import (
+	"regexp"
 	"fmt"
 	"go/types"
 	"strings"
@@ -329,6 +330,9 @@ func (c *evalCtx) eval1(e *Expr) (tval, error) {
 		}
 		u.usesQuant = true
 		if e.Op == "forall" {
+			if pats := autoPatterns(vars, body.t.S); len(pats) > 0 {
+				return tval{t: Forall(vars, body.t, pats...), ty: tBool}, nil
+			}
 			return tval{t: Forall(vars, body.t), ty: tBool}, nil
 		}
 		return tval{t: Exists(vars, body.t), ty: tBool}, nil
@@ -697,4 +701,59 @@ func (w *World) importByName(pkg *types.Package, name string) *types.Package {
 		}
 	}
 	return nil
+}
+
+// autoPatterns: explicit triggers for contract quantifiers over pointer / slice variables. Left to itself z3 picks
+// (obj p) or (sptr s) as the trigger of `forall p *T :: ... p.f ...`, which matches every location term of the query
+// and makes it diverge. The triggers chosen here are the heap reads at the bound variable itself: (select H p) for a
+// pointer p, (select H (elem (sptr s) j)) for a slice s with index j. Only used when one such term mentions all the
+// bound variables.
+func autoPatterns(vars []Term, body string) [][]Term {
+	hasRef := false
+	for _, v := range vars {
+		if v.Sort == SLoc || v.Sort == SSlice {
+			hasRef = true
+		}
+	}
+	if !hasRef {
+		return nil
+	}
+	sym := `(?:\|[^|]*\||[^\s()]+)`
+	var cands []string
+	seen := map[string]bool{}
+	add := func(t string) {
+		if seen[t] {
+			return
+		}
+		for _, v := range vars {
+			if !strings.Contains(t, v.S) {
+				return
+			}
+		}
+		seen[t] = true
+		cands = append(cands, t)
+	}
+	for _, v := range vars {
+		q := regexp.QuoteMeta(v.S)
+		switch v.Sort {
+		case SLoc:
+			re := regexp.MustCompile(`\(select ` + sym + ` ` + q + `\)`)
+			for _, m := range re.FindAllString(body, -1) {
+				add(m)
+			}
+		case SSlice:
+			re := regexp.MustCompile(`\(select ` + sym + ` \(elem \(sptr ` + q + `\) ` + sym + `\)\)`)
+			for _, m := range re.FindAllString(body, -1) {
+				add(m)
+			}
+		}
+	}
+	if len(cands) == 0 || len(cands) > 4 {
+		return nil
+	}
+	var out [][]Term
+	for _, c := range cands {
+		out = append(out, []Term{{S: c, Sort: SBool}})
+	}
+	return out
 }
